@@ -190,7 +190,9 @@ func vrealclock() { vRealClock = true }
 
 var vRealClock bool
 
-func vyield() {}
+// vyield: a scheduling point for the engine; natively a short real pause, so that a
+// goroutine which has just been released gets to run before the caller goes on.
+func vyield() { time.Sleep(300 * time.Microsecond) }
 
 // vjitter: called from log hooks in the concurrent harnesses. Natively, when a
 // schedule-dependent counterexample is being stressed ($VERIF_JITTER), it perturbs the
